@@ -928,13 +928,13 @@ func c11r8(p *Program, r *Report) {
 				return true
 			}
 			n++
-			_, key := p.resolveValue(u, ix.Index, 0)
+			kf, key := p.resolveValue(u, ix.Index, 0)
 			okKey := false
 			why := exprStr(key)
 			if c, isCall := ast.Unparen(key).(*ast.CallExpr); isCall && len(c.Args) == 0 {
 				if sel, isSel := ast.Unparen(c.Fun).(*ast.SelectorExpr); isSel && sel.Sel.Name == "Keyspace" {
 					// the receiver is the query handed to Pick
-					rf, re := p.resolveValue(u, sel.X, 0)
+					rf, re := p.resolveValue(kf, sel.X, 0)
 					if id, isId := ast.Unparen(re).(*ast.Ident); isId && rf == fi {
 						if po := paramObj(fi.Pkg.TypesInfo, fi.Decl.Type, 0); po != nil && fi.Pkg.TypesInfo.Uses[id] == po {
 							okKey = true
